@@ -193,4 +193,18 @@ theorem C11_tgen_table_maxversion :
     has_addhelper_maxversion = "yes" ∧ has_addinternal_maxversion = "no" := by decide
 theorem C07_tgen_table_maxversion :
     has_addhelper_maxversion = "yes" ∧ has_addinternal_maxversion = "no" := by decide
+
+/-- `compactStatus` as transcribed in BadgerModel/CompactStatus.lean: `compareAndAdd` tests this level
+    then the next level and only then appends; `delete` removes `nextRange` only for different level
+    handlers and a non-empty range (observation O-cs1 rests on this); `fillTablesL0ToL0` skips the
+    tables of running compactions. -/
+theorem C14_tgen_cstatus :
+    cond_caa_tests = "thisLevel.overlapsWith(cd.thisRange) | nextLevel.overlapsWith(cd.nextRange)" ∧
+    ord_caa_tests_appends = "before" ∧
+    cond_cstatus_delete_next = "cd.thisLevel != cd.nextLevel && !cd.nextRange.isEmpty()" ∧
+    has_l0l0_being_compacted_skip = "yes" := by decide
+theorem C12_tgen_cstatus :
+    cond_caa_tests = "thisLevel.overlapsWith(cd.thisRange) | nextLevel.overlapsWith(cd.nextRange)" ∧
+    ord_caa_tests_appends = "before" := by decide
+
 end Badger
